@@ -52,7 +52,7 @@ BOUNDS = {
               "n_thetas": 4, "burnin": 1, "thin": 1,
               "histories": "late results: every view of an unobserved plate taken before set_observed x 7 placeholder values; side operations: "
                            "every concat / combine of the observed view with an unobserved plate (both orders), invert, to_screen, "
-                           "single_treatment_effects, ExperimentSpace.from_screen, each followed by training",
+                           "single_treatment_effects, ExperimentSpace.from_screen, each followed by training; incremental: the observed rows added in two calls at every split point, training arrays and posterior samples == one-shot model",
               "interaction_model": "training data = combination rows AND the single-agent table (mean of the observed single-agent wells)"},
     "thorough": {"screens_per_model": 6, "single_row_values": MENU, "pair_values": MENU, "n_chunks": [1, 2, 3, 7], "batch_size": 2,
                  "n_thetas": 5, "burnin": 2, "thin": 2, "histories": "as quick", "interaction_model": "as quick"},
@@ -330,6 +330,7 @@ def plan(tier, seed):
             items.append({"kind": "cli-chain", "model": model, "screen": idx})
             items.append({"kind": "late", "model": model, "screen": idx})
             items.append({"kind": "sideops", "model": model, "screen": idx})
+            items.append({"kind": "incremental", "model": model, "screen": idx})
     return items
 
 
@@ -658,7 +659,57 @@ def run_sideops_item(item, col, tier):
         col.nontriv("sideops", model, idx, label)
 
 
+def run_incremental_item(item, col, tier):
+    """History: the observed experiments are handed to ONE model object in two calls (results arrive plate by plate) instead
+    of one.  Same experiments, same order -> same training arrays, same posterior samples as the one-shot model."""
+    model, idx = item["model"], item["screen"]
+    rows = base_rows(model, idx)
+    b = BOUNDS[tier]
+    screen = make_screen(rows, control=CTL)
+    obs_idx = [i for i, r in enumerate(rows) if r[4]]
+
+    def train(parts):
+        np.random.seed(12345)
+        m = make_model(model, screen)
+        for part in parts:
+            sel = np.zeros(len(rows), dtype=bool)
+            sel[part] = True
+            m.add_observations(screen.subset(sel))
+        ta = training_arrays(m)
+        res = sampling.sample(m, ThetaHolder(n_thetas=b["n_thetas"]), seed=3, n_chains=2, chain_index=1, n_burnin=b["burnin"], thin=b["thin"])
+        return tuple(a.tobytes() for a in ta), theta_bytes(res), int(m.n_obs())
+
+    base = train([obs_idx])
+    col.evaluations += 1
+    col.outcome("incremental", model, idx, "one-shot", digest(base))
+    for k in range(1, len(obs_idx)):
+        case = {"kind": "incremental", "model": model, "screen": idx, "split": k}
+        col.evaluations += 1
+        col.states += 1
+        col.transitions += 2
+        try:
+            got = train([obs_idx[:k], obs_idx[k:]])
+        except Exception as exc:  # noqa: BLE001
+            if not exception_origin_in_repo(exc):
+                raise
+            col.violation(f"C04|incremental|raises|{model}", f"{model} model, screen {idx}: adding the observed rows in two calls ({k} + {len(obs_idx) - k}) raises {short_exc(exc)}", case)
+            continue
+        col.nontriv("incremental", model, idx, k)
+        what = None
+        if got[2] != base[2]:
+            what = f"n_obs() is {got[2]}, the one-shot model has {base[2]}"
+        elif got[0] != base[0]:
+            what = "the training arrays differ from the one-shot model's"
+        elif got[1] != base[1]:
+            what = "the training arrays are the same but the posterior samples differ from the one-shot model's (same seed): the sampler does not use each stored experiment exactly once"
+        if what:
+            col.violation(f"C04|incremental|{'posterior' if 'posterior' in what else 'training-set'}|{model}",
+                          f"{model} model, screen {idx}: observed rows added in two calls ({k} + {len(obs_idx) - k}): {what}", case)
+
+
 def run_item(item, col, tier):
+    if item["kind"] == "incremental":
+        return run_incremental_item(item, col, tier)
     if item["kind"] == "sideops":
         return run_sideops_item(item, col, tier)
     if item["kind"] == "late":
@@ -704,4 +755,6 @@ def replay(case, col):
         run_late_item({"model": model, "screen": idx}, col, tier)
     elif kind == "sideops":
         run_sideops_item({"model": model, "screen": idx}, col, tier)
+    elif kind == "incremental":
+        run_incremental_item({"model": model, "screen": idx}, col, tier)
     col.evaluations += 1
